@@ -158,8 +158,10 @@ let () =
                   | Valid (fl, r) ->
                       let ng = int_of_nat (count_groups r) in
                       let bf = not (has_backref r) and bok = bounds_ok r in
-                      Buffer.add_string b (Printf.sprintf "\tV=valid\tbf=%d\tbok=%d\tstrict=%d\tng=%d"
-                        (if bf then 1 else 0) (if bok then 1 else 0) (if strict_ok r then 1 else 0) ng);
+                      Buffer.add_string b (Printf.sprintf "\tV=valid\tbf=%d\tbok=%d\tstrict=%d\tng=%d\tk1=%d\tk2=%d\tk3=%d"
+                        (if bf then 1 else 0) (if bok then 1 else 0) (if strict_ok r then 1 else 0) ng
+                        (if k_nested_quant r then 1 else 0) (if k_counted_zero_width r then 1 else 0)
+                        (if k_group_backtrack r then 1 else 0));
                       if bok then begin
                         let inp = dec input in
                         Buffer.add_string b (Printf.sprintf "\tnullable=%d" (if spec_nullable fl r then 1 else 0));
@@ -176,6 +178,41 @@ let () =
                         Buffer.add_string b ("\tSP=" ^ String.concat ";" sp)
                       end);
                  print_endline (Buffer.contents b)
+             | id :: "weak" :: dialect :: flags :: pattern :: input :: spans :: _ ->
+                 (* spans: "i-j;i-j" as reported by the code; is the weak clause of C02 satisfied? *)
+                 (match spec_compile (dialect = "xpath") (dec flags) (dec pattern) with
+                  | Valid (fl, r) when bounds_ok r ->
+                      let sp = if spans = "-" then [] else
+                        List.map (fun x -> match split_on '-' x with
+                          | [a; z] -> (nat_of_int (int_of_string a), nat_of_int (int_of_string z))
+                          | _ -> failwith "span") (split_on ';' spans) in
+                      print_endline (id ^ "\t" ^ (if weak_valid fl (dec input) r sp O then "ok" else "bad"))
+                  | _ -> print_endline (id ^ "\tskip"))
+             | id :: "clsmem" :: dialect :: flags :: pattern :: points :: _ ->
+                 (match spec_compile (dialect = "xpath") (dec flags) (dec pattern) with
+                  | Valid (fl, r) ->
+                      let pts = List.map (fun h -> int_of_string ("0x" ^ h)) (split_on '.' points) in
+                      let b = Buffer.create 64 in
+                      Buffer.add_string b id; Buffer.add_string b "\tok";
+                      let run = ref None in
+                      let flush () = match !run with
+                        | Some (a, z) -> Buffer.add_string b (Printf.sprintf " %x-%x" a z); run := None
+                        | None -> () in
+                      let bad = ref false in
+                      List.iter (fun cp ->
+                        match single_class_mem fl r (n_of_int cp) with
+                        | None -> bad := true
+                        | Some m ->
+                          if m then
+                            (match !run with
+                             | Some (a, z) when z + 1 = cp || (z = 0xD7FF && cp = 0xE000) -> run := Some (a, cp)
+                             | Some _ -> flush (); run := Some (cp, cp)
+                             | None -> run := Some (cp, cp))
+                          else flush ()) pts;
+                      flush ();
+                      print_endline (if !bad then id ^ "\tnot-a-class" else Buffer.contents b)
+                  | Invalid -> print_endline (id ^ "\tinvalid")
+                  | Unspecified -> print_endline (id ^ "\tunspec"))
              | id :: fn :: _ -> print_endline (id ^ "\tunknown-fn:" ^ fn)
              | _ -> failwith "bad spec line"
            end
